@@ -20,7 +20,7 @@ ID = 'C17'
 LEVEL = 'fault_enumeration'
 B = 96
 CLASSES = [('grid_sample', 1)]
-TIERS = {'quick': {'runs': 1600, 'chunk': 20, 'budget_s': 40.0},
+TIERS = {'quick': {'chunk': 20, 'budget_s': 25.0},
          'thorough': {'chunk': 20}}
 RULE = ('per generated file a seeded sample (quick: 60 per file) or the full '
         'grid (thorough sweep tasks: 193 paddings x 194 block sizes) of '
